@@ -143,6 +143,13 @@ def impl(case):
            'cut': battery(A(_cutset(case), _cutidx(case)), case['lag'], case['S'], case['F'], which=['emm']),
            'single': [battery(A([t], [i]), case['lag'], case['S'], case['F'], which=['coring', 'wt', 'paths'])
                       for i, t in enumerate(trajs)] if len(trajs) <= 12 else None}
+    if not dts and 2 <= len(trajs) <= 12 and all(len(t) for t in trajs):
+        # the reordered set once more, now as VIEWS of one buffer that holds the trajectories in their original order
+        # (pieces of a cut trajectory, rows of a table): the order of the list counts, not the order in memory
+        base = np.concatenate([np.array(t, dtype=np.int64) for t in trajs])
+        offs = np.cumsum([0] + [len(t) for t in trajs])
+        views = [base[offs[i]:offs[i + 1]] for i in range(len(trajs))]
+        out['views_perm'] = battery([views[i] for i in case['perm']], case['lag'], case['S'], case['F'], which=['emm', 'coring'])
     if len(trajs) <= 12:
         # a set of ONE trajectory against the same trajectory plus its first `lag` frames as a second piece: the extra
         # piece holds no frame pair and no new label, so the two models are the same (single- and multi-trajectory routes)
@@ -310,6 +317,12 @@ def judge(case, ibc, answers):
                         merged.setdefault(tuple(k), []).extend(vs)
                 if b['paths'].get('d') != sorted([list(k), vs] for k, vs in merged.items()):
                     P('impl-vs-spec', 'pathway dictionary of the set is not the merge of the per-trajectory dictionaries')
+        vp_ = r.get('views_perm')
+        if vp_:
+            for name in ('emm', 'coring'):
+                if name in p and vp_[name] != p[name]:
+                    P('impl-vs-spec', 'the reordered set passed as views of one buffer (memory order = original order) gives another %s than the same '
+                      'trajectories as separate arrays: %s vs %s' % (name, C.short(vp_[name], 110), C.short(p[name], 110)))
         for a, b2 in r.get('single_emm') or []:
             if not _close(a, b2):
                 P('impl-vs-spec', 'the model of ONE trajectory changes when its first lag frames are added as a second trajectory (no pairs, no new labels): %s vs %s' % (
